@@ -58,7 +58,9 @@ def run(ctx):
     ctx.coverage["rule"] = ("layered DAGs of 2-6 targets (file/dir outputs, aliases incl. chains, globs with excludes, 1-2 targets per package), "
                             "histories of 2-5 edit/tamper/taint steps each followed by a build with a random selection; families: "
                             + ", ".join("%s x%d" % f for f in (FAMILIES_QUICK if quick else FAMILIES_THOROUGH)) +
-                            ", output-swap (no-cache dependency) and glob-matches-dependency-output (oracle only); "
+                            ", output-swap (cached and no-cache dependency) and glob-matches-dependency-output (oracle only); swap = splitter targets whose two "
+                            "outputs swap contents, shared = two targets of one package sharing one glob (one excluding the first match), dirs = directory "
+                            "outputs (files, sub-directory, symlink, one entry per input) growing/shrinking with the inputs and tampered in place; "
                             "non-trivial = distinct history with >=2 builds in which some build executed a command and some build had a cache hit")
     recs = H.run_both(ctx, hists, "c01")
     if recs is None:
